@@ -46,6 +46,7 @@ func ReadFromSRT(i io.Reader) (o *Subtitles, err error) {
 		// Fetch line
 		line = strings.TrimSpace(scanner.Text())
 		lineNum++
+		verifEmit("srt.line", i, lineNum, len(o.Items), len(s.Lines))
 		if !utf8.ValidString(line) {
 			err = fmt.Errorf("astisub: line %d is not valid utf-8", lineNum)
 			return
